@@ -17,6 +17,7 @@ RULE = ('sources: (a) LUAGEN programs of the dialect in random layouts (comments
         'and REFLEX(src) have the same token sequence including blanks, line ends and comments; every non-string '
         'token has identical bytes; every string literal denotes the same byte string. Non-trivial = the source '
         'has a string literal with an escape or a byte >= 0x80, or a multi-line token; distinct by source.'
+        ' A quarter of the parseable sources (no CR, no header-like or include-like line) also go through `p8tool writep8` on a .p8 file written by the reference writer; the output cart is read by the reference reader (own P8SCII table) and judged the same way.'
         ' After the chunkings, the default writer is run once more on a Lua object on which another writer (PureLuaWriter, LuaMinifyTokenWriter, LuaFormatterWriter, LuaASTEchoWriter) has just produced output: it must still echo the source. Part "starts" puts every representative atom (incl. glyph names equal to Unicode byte-order marks) first and last in a source.')
 ASSUMPTIONS = ['lexical rules are represented by vlib/reflex.py; sources it rejects are out of domain (counted)',
                'levelled long comments --[=[ ]=] are not asserted (see C07)']
@@ -147,7 +148,55 @@ def check_source(src, case=None, ch=None, avoid=(), stats=None):
             raise Violation('loading/echoing (%s chunking) raised %r -- %s' % (how, e, show(src, 120)), case, 'raises')
         compare(src, out, case, how)
     echo_after_other_writer(src, case, ch)
+    import zlib
+    if path == 'Lua.from_lines' and zlib.crc32(src) % 4 == 0 and file_route_applicable(src):
+        file_route(src, case)
+        if stats is not None:
+            stats.count('via_writep8_file')
+            if any(b < 0x80 and (0x10 <= b < 0x20 or b == 0x7f) for b in src) and \
+                    any(ln and max(ln) < 0x80 and any(0x10 <= b < 0x20 or b == 0x7f for b in ln) for ln in src.split(b'\n')):
+                stats.count('via_writep8_file_low_glyph_line')
     return ref
+
+
+def file_route_applicable(src):
+    """The .p8 text format cannot hold every source (C03): no bare CR handling asserted here, no line that reads as a
+    section header or an include line."""
+    import re
+    if b'\r' in src:
+        return False
+    for ln in src.split(b'\n'):
+        if re.match(br'__\w+__$', ln) or re.match(br'\s*#include', ln):
+            return False
+    return True
+
+
+def file_route(src, case):
+    """`p8tool writep8 cart.p8`: the code section of cart_fmt.p8, read by the reference .p8 reader (own P8SCII table),
+    must be the source (plus the final line end the format supplies)."""
+    import os
+    import tempfile
+    from pico8 import tool
+    from vlib import reffmt
+    with tempfile.TemporaryDirectory(prefix='c06_') as td:
+        path = os.path.join(td, 'cart.p8')
+        with open(path, 'wb') as fh:
+            fh.write(reffmt.write_p8(8, src, bytes(0x4300)))
+        try:
+            rc = tool.main(['-q', 'writep8', path])
+        except Exception as e:
+            raise Violation('`p8tool writep8` raised %r -- %s' % (e, show(src, 120)), case, 'writep8-raises')
+        outp = os.path.join(td, 'cart_fmt.p8')
+        if rc != 0 or not os.path.exists(outp):
+            raise Violation('`p8tool writep8` returned %r / wrote no cart_fmt.p8 -- %s' % (rc, show(src, 120)), case, 'writep8')
+        raw = open(outp, 'rb').read()
+    try:
+        out = reffmt.read_p8(raw)['code']
+    except reffmt.FormatError as e:
+        raise Violation('the .p8 written by `p8tool writep8` is not readable by the reference reader: %s -- source %s'
+                        % (e, show(src, 120)), case, 'writep8-unreadable')
+    want = src if (not src or src.endswith(b'\n')) else src + b'\n'
+    compare(want, out, case, '`p8tool writep8` (.p8 -> .p8)')
 
 
 OTHER_WRITERS = (('PureLuaWriter', {}), ('LuaMinifyTokenWriter', {}), ('LuaFormatterWriter', {'indentwidth': 2}),
@@ -285,7 +334,8 @@ def replay(case):
 def vacuity(total, tier):
     msgs = []
     for lab in ('string_escape', 'long_string', 'string_raw_special_byte', 'crlf', 'no_final_newline', 'comment',
-                'program', 'string_soup', 'token_soup', 'source_start_or_end_atom'):
+                'program', 'string_soup', 'token_soup', 'source_start_or_end_atom', 'via_writep8_file',
+                'via_writep8_file_low_glyph_line'):
         if total.classes.get(lab, 0) < 20:
             msgs.append('class %s seen %d times' % (lab, total.classes.get(lab, 0)))
     return msgs
